@@ -22,8 +22,8 @@ from detsim.sched import HarnessError, Scheduler
 
 PROP = "C06"
 LEVEL = "exploration"
-RUNS = {"quick": 4000, "thorough": 60000}
-BUDGET_S = {"quick": 90, "thorough": 1500}
+RUNS = {"quick": 3000, "thorough": 60000}
+BUDGET_S = {"quick": 150, "thorough": 1500}
 RULE = ("each evaluation is one stored variant of a generated chart read back once (one order x "
         "newline x BOM x unknown-section placement x access path x I/O tape). Distinct = distinct "
         "(bytes, access path, tape) digest; non-trivial = the variant differs from the canonical "
